@@ -10,7 +10,7 @@ THIS = {"name": "this-> : the bisection object", "re": r"this->", "sub": "g_b."}
 ZERO = {"name": "value-initialised scalars", "re": r"\b(NumericType|IndexType)\{\}", "sub": r"((\1)0)"}
 SAMESIGN = {"name": "static member haveSameSign", "re": r"BissectionAlgorithmBase::haveSameSign\(", "sub": "B_haveSameSign("}
 NOCPP = {"name": "no unmapped C++ may remain", "forbid": r"this->|std::get|\[this\]|\[\]\("}
-INV = ("i <= p.im && EVALUATED(x, fv) && g_escaped == 0 && g_calls <= 3ul + 2ul * (unsigned long)i"
+INV = ("0 <= i && i <= p.im && EVALUATED(x, fv) && g_escaped == 0 && g_calls <= 3ul + 2ul * (unsigned long)(i < 0 ? 0 : i)"
        " && (g_supplied ==> (VALID && g_lo <= g_b.xmin && g_b.xmax <= g_hi))"
        " && (converged ==> (FIN(x) && FIN(fv) && g_c_ret && SAMEV(g_c_fv, fv) && SAMEV(g_c_x, x) && g_c_i == i))")
 BODIES = [
@@ -70,6 +70,9 @@ def run(ctx):
     jobs.append(Job("scalarNewtonRaphson", tpl, bodies=BODIES, enforce="scalarNewtonRaphson", replace=["B_updateBounds", "B_getNextRootEstimate", "B_iterate"], loop_contracts=True,
                     needs=["sgn_lambda", "haveSameSign", "update_range_lambda", "updateBounds", "getNextRootEstimate", "iterate", "scalarNewtonRaphson"], min_obligations=5,
                     timeout=1500 if ctx.thorough else 600))
+    jobs.append(Job("scalarNewtonRaphson_signed_index", tpl, bodies=BODIES, enforce="scalarNewtonRaphson", replace=["B_updateBounds", "B_getNextRootEstimate", "B_iterate"], loop_contracts=True,
+                    needs=["sgn_lambda", "haveSameSign", "update_range_lambda", "updateBounds", "getNextRootEstimate", "iterate", "scalarNewtonRaphson"], min_obligations=5,
+                    defines=["SIGNED_INDEX"], timeout=1500 if ctx.thorough else 600))
     run_jobs(ctx, jobs, replay_fn=replay)
 
 
